@@ -7,13 +7,21 @@ import collections
 from sa.astx import call_attr, lin_expect, lincmp, src
 from sa.selftest import Mutant, Silent
 from sa.source import AnalysisError
-from sa.props._lib_f import InterpError, MDeferred, ModelRaised, NullLogger, World, call_sites, named_calls
+from sa.astx import walk_local, call_name
+from sa.props._lib_f import (Abstain, InterpError, MDeferred, ModelRaised, NullLogger, World, assign_sites, call_sites, from_here, named_calls, norm_method, param_names,
+                             structural, truth_guard)
 
 PROPERTY = "C29"
 H2 = "web/_http2.py"
 Q = "twisted.web._http2."
-TECHNIQUE = "finite-schedule interpretation of the send loop against a flow-control oracle"
+TECHNIQUE = "clamp dominance + window guards on the normalised send loop; one loop turn over all orderings; bounded multi-stream schedules"
 EXPLANATION = (
+    "STRUCTURAL on the normalised H2Connection / H2Stream: every chunk reaches send_data only through the false edge of `len(data) > bound` or the cut data[:bound], with bound = "
+    "min(max_outbound_frame_size, local_flow_control_window(stream)); the remainder is appendleft-ed; every normal path of the loop re-schedules, parks or stops; flowControlBlocked() "
+    "is guarded by remainingOutboundWindow <= 0 and resumeProducing() by remaining > 0 on a paused producer; every priority.unblock site has a queue known non-empty.  FINITE-"
+    "EXHAUSTIVE: one loop turn over all orderings of (chunk length, max frame, window, 0), the sentinel / empty-chunk cases, remainingOutboundWindow over queue shapes.  BOUNDED "
+    "second layer (bounded evidence only for: completeness and order of whole responses under window-update schedules, wake-up of the parked loop, producer pause/resume "
+    "sequences): "
     "The module is parsed, never imported.  H2Connection and H2Stream become model objects whose methods are the repository's own functions (interpreted over the "
     "AST); the h2 state machine, the priority tree, the reactor, the transport and the body producers are small synchronous checker models.  Decided by running "
     "finite schedules and comparing with an oracle: (a) one turn of _sendPrioritisedData for every chunk length 0..6, max frame size 0..4 and window -3..4: at most "
@@ -25,6 +33,12 @@ EXPLANATION = (
     "the remaining window is <= 0 and resumed exactly when it is > 0; remainingOutboundWindow == window - queued bytes; (d) at EVERY priority.unblock site (helpers "
     "inlined) the stream's queue is known non-empty.  Not decided: liveness under arbitrary reactor schedules, byte equality at a real peer."
 )
+RULE_KINDS = {
+    "clamp/send-within-bound": "structural", "loop/continues-structural": "structural", "backpressure/blocked-guard": "structural", "backpressure/resume-guard": "structural",
+    "wakeup/unblock-only-with-data": "structural",
+    "clamp/frame-within-window": "finite-exhaustive", "clamp/negative-window": "finite-exhaustive", "clamp/end-after-data": "finite-exhaustive", "backpressure/remaining-window": "finite-exhaustive",
+    "loop/": "bounded", "schedule/": "bounded", "wakeup/": "bounded", "queue/": "bounded", "backpressure/": "bounded",
+}
 ASSUMPTIONS = ["h2's local_flow_control_window / max_outbound_frame_size report the peer's limits (modelled: min(stream window, connection window))",
                "the priority tree yields only unblocked streams and raises DeadlockError when there is none"]
 
@@ -225,8 +239,140 @@ def _loop(c):
     return c._sendPrioritisedData
 
 
+# ==================================================================================================================================
+# STRUCTURAL layer on the normalised H2Connection / H2Stream (private helpers inlined, pure temporaries substituted)
+# ==================================================================================================================================
+KEEP_CONN = {"_sendPrioritisedData", "writeDataToStream", "endRequest", "_handleWindowUpdate", "dataReceived", "_requestReceived"}
+KEEP_STREAM = {"write", "writeSequence", "loseConnection", "windowUpdated", "flowControlBlocked", "registerProducer", "unregisterProducer"}
+
+
+def _defs(f, name):
+    return [s_.value for s_ in walk_local(f) if isinstance(s_, ast.Assign) and any(isinstance(t, ast.Name) and t.id == name for t in s_.targets)]
+
+
+def _s_window_guards(ctx):
+    f = norm_method(ctx, H2, C, "_sendPrioritisedData", keep=KEEP_CONN)
+    g = ctx.cfg(f)
+    q = Q + C + "._sendPrioritisedData"
+    sends = named_calls(g, "self.conn.send_data")
+    if len(sends) != 1 or len(sends[0][1].args) < 2 or not isinstance(sends[0][1].args[1], ast.Name):
+        raise Abstain("send_data(stream, <name>) site not found")
+    sn, sc = sends[0]
+    D = sc.args[1].id
+    # the clamp test: len(D) compared with the bound B
+    cands = []
+    for t in g.ids(lambda x: x.kind == "test"):
+        lc = lincmp(g.node(t).ast)
+        if lc is None:
+            continue
+        terms, c0 = dict(lc[0]), lc[1]
+        if f"len({D})" in terms and len(terms) == 2:
+            other = [k for k in terms if k != f"len({D})"][0]
+            if terms[f"len({D})"] == -terms[other]:
+                cands.append((t, other, lc))
+    if len(cands) != 1:
+        raise Abstain(f"{len(cands)} comparisons of len({D}) with a bound")
+    t, B, lc = cands[0]
+    longer = lin_expect({f"len({D})": 1, B: -1}, 1)          # len(D) > B
+    pol_long = "T" if lc == longer else ("F" if lincmp(g.node(t).ast, negate=True) == longer else None)
+    if pol_long is None:
+        ctx.violation("clamp/send-within-bound", q + " | clamp test", f"the oversize test is `{src(g.node(t).ast)}`, not `len(data) > bound` (a chunk one byte too long passes)")
+        return
+    bdef = B
+    if B.isidentifier():
+        ds = _defs(f, B)
+        if len(ds) != 1:
+            raise Abstain(f"{len(ds)} definitions of the bound {B}")
+        bdef = src(ds[0])
+        for _ in range(3):
+            for nm in [x.id for x in ast.walk(ds[0]) if isinstance(x, ast.Name)]:
+                d2 = _defs(f, nm)
+                if len(d2) == 1 and nm not in ("min", "self", "stream"):
+                    bdef = bdef.replace(nm, src(d2[0]))
+    ok = bdef.startswith("min(") and "self.conn.max_outbound_frame_size" in bdef and "self.conn.local_flow_control_window(stream)" in bdef
+    ctx.check(ok, "clamp/send-within-bound", q + " | bound", f"the bound of a DATA frame is `{bdef}`, not min(max_outbound_frame_size, flow-control window of that stream)")
+    short_edge = "F" if pol_long == "T" else "T"
+    def cuts(st):
+        if not isinstance(st, ast.Assign):
+            return False
+        for tgt in st.targets:
+            if isinstance(tgt, ast.Name) and tgt.id == D and src(st.value) == f"{D}[:{B}]":
+                return True
+            if isinstance(tgt, ast.Tuple) and isinstance(st.value, ast.Tuple) and len(tgt.elts) == len(st.value.elts):
+                for te, ve in zip(tgt.elts, st.value.elts):
+                    if src(te) == D and src(ve).startswith(f"{D}[:") and not src(ve).startswith(f"{D}[::"):
+                        return True
+        return False
+    slices = [n for n, st in assign_sites(g, lambda x: isinstance(x, ast.Name) and x.id == D) if cuts(st)]
+    pops = [n for n, st in assign_sites(g, lambda x: isinstance(x, ast.Name) and x.id == D) if isinstance(st, ast.Assign) and isinstance(st.value, ast.Call) and call_attr(st.value) in ("popleft", "pop")]
+    if not pops:
+        raise Abstain("the pop of the chunk was not found")
+
+    def edge_ok(a_, b_, l_):
+        if l_ == "exc":
+            return False
+        if a_ == t and l_ == short_edge:
+            return False
+        return True
+    w = g.path(pops, [sn], avoid=slices, edge_ok=edge_ok, strict=True)
+    ctx.check(w is None, "clamp/send-within-bound", q + " | send_data(stream, data)", "a chunk longer than the bound can reach send_data without being cut to data[:bound]", witness=g.describe(w))
+    # the remainder goes back to the front
+    back = call_sites(g, lambda c: call_attr(c) in ("appendleft", "append", "insert", "extendleft") and isinstance(c.func, ast.Attribute) and "_outboundStreamQueues" in src(c.func.value) or
+                      (call_attr(c) in ("appendleft", "append") and isinstance(c.func, ast.Attribute) and isinstance(c.func.value, ast.Name) and any("_outboundStreamQueues" in src(d) for d in _defs(f, c.func.value.id))))
+    for n, c in back:
+        ctx.check(call_attr(c) == "appendleft", "clamp/send-within-bound", q + f" | {call_attr(c)}(remainder)", "the unsent remainder is not put back at the FRONT of the stream's queue (later data overtakes it)")
+    # loop continuation
+    me = "self._sendPrioritisedData"
+    resched = [n for n, c in call_sites(g, lambda c: call_attr(c) in ("callLater", "addCallback") and any(src(a_) == me for a_ in c.args))]
+    stop = [r for r in g.ids(lambda x: x.kind == "stmt" and isinstance(x.ast, ast.Return)) if truth_guard(g, r, "self._stillProducing", False)]
+    if not resched:
+        raise Abstain("no re-scheduling site of the loop found")
+    w = g.must_pass([g.entry], set(resched) | set(stop), exc=False)
+    ctx.check(w is None, "loop/continues-structural", q, "the sending loop can return without parking on a Deferred or re-scheduling itself: every stream stalls", witness=g.describe(w))
+
+
+def _s_backpressure_guards(ctx):
+    for name, sid in (("writeDataToStream", None), ("_sendPrioritisedData", "stream")):
+        f = norm_method(ctx, H2, C, name, keep=KEEP_CONN)
+        g = ctx.cfg(f)
+        q = Q + C + "." + name
+        key = sid or param_names(f)[1]
+        fb = call_sites(g, lambda c: call_attr(c) == "flowControlBlocked")
+        if len(fb) != 1:
+            raise Abstain(f"{len(fb)} flowControlBlocked() sites in the normalised {name}")
+        n, c = fb[0]
+        want = lin_expect({f"self.remainingOutboundWindow({key})": -1}, 0)
+        guards = [(t, lab) for t, lab in g.edge_guards(n) if "remainingOutboundWindow" in src(g.node(t).ast)]
+        if not guards:
+            raise Abstain("flowControlBlocked() is not guarded by a remainingOutboundWindow test here")
+        ok = any(lincmp(g.node(t).ast, negate=(lab == "F")) == want for t, lab in guards)
+        ctx.check(ok, "backpressure/blocked-guard", q + " | flowControlBlocked()",
+                  f"the producer is paused under {[(src(g.node(t).ast), lab) for t, lab in guards]}, not exactly when remainingOutboundWindow(stream) <= 0")
+    f = norm_method(ctx, H2, "H2Stream", "windowUpdated", keep=KEEP_STREAM)
+    g = ctx.cfg(f)
+    q = Q + "H2Stream.windowUpdated"
+    res = named_calls(g, "self.producer.resumeProducing")
+    if len(res) != 1:
+        raise Abstain(f"{len(res)} resumeProducing() sites")
+    n, c = res[0]
+    cands = []
+    for t, lab in g.edge_guards(n):
+        lc = lincmp(g.node(t).ast, negate=(lab == "F"))
+        if lc is not None and len(lc[0]) == 1:
+            term = list(lc[0])[0][0]
+            if "remainingOutboundWindow" in term or any("remainingOutboundWindow" in src(d) for d in _defs(f, term) if term.isidentifier()):
+                cands.append((term, lc))
+    if not cands:
+        raise Abstain("resumeProducing() is not guarded by a comparison of the remaining window")
+    ok = any(lc == lin_expect({term: 1}, 1) for term, lc in cands)
+    ctx.check(ok, "backpressure/resume-guard", q + " | producer.resumeProducing()", f"the paused producer is resumed under {[dict(lc[0]) for _, lc in cands]} >= {[lc[1] for _, lc in cands]}, not exactly when the remaining window is > 0")
+    ctx.check(truth_guard(g, n, "self._producerProducing", False), "backpressure/resume-guard", q + " | only if paused", "resumeProducing() is not confined to a paused producer")
+
+
 def check(ctx):
-    for name, fn in (("clamp", _clamp), ("loop", _loop_continues), ("schedules", _schedules), ("backpressure", _backpressure), ("unblock-sites", _unblock_sites)):
+    for name, fn in (("s-window-guards", lambda c: structural(c, "clamp/send-within-bound", "clamp/frame-within-window (finite-exhaustive evaluation)", _s_window_guards, c)),
+                     ("s-backpressure-guards", lambda c: structural(c, "backpressure/blocked-guard", "backpressure/* scenarios (bounded)", _s_backpressure_guards, c)),
+                     ("clamp", _clamp), ("loop", _loop_continues), ("schedules", _schedules), ("backpressure", _backpressure), ("unblock-sites", _unblock_sites)):
         with ctx.section(name):
             try:
                 fn(ctx)
@@ -293,7 +439,7 @@ def _clamp(ctx):
         msg = f"chunk of {L} bytes, max_outbound_frame_size={M}, flow-control window={W}: {why} (limit {max(0, min(M, W))}); {len(bad)} cases wrong"
     elif not front_ok:
         msg = f"queue [ABCDE, later] with room for 2 bytes: sent {h2.body(1)!r}, queue now {list(c._outboundStreamQueues[1])!r}: the remainder is not put back at the FRONT (later data overtakes it)"
-    ctx.check(not bad and front_ok, "clamp/frame-within-window", q + " | <data branch>", msg, detail=f"{n} (length, max frame, window) cases")
+    ctx.check(not bad and front_ok, "clamp/frame-within-window", q + " | <data branch>", msg, detail=f"{n} (length, max frame, window) cases; domain: one turn of the loop only compares len(chunk) with min(max frame, window) and tests emptiness, so the orderings of (len, max frame, window, 0) realised by 0..6 x 0..4 x -3..4 are all of them")
     msg = ""
     if badneg:
         L, M, W, why = badneg[0]
@@ -571,7 +717,7 @@ def _backpressure(ctx):
 
 # ---- (e) who may unblock ---------------------------------------------------------------------------------------------------------------------------
 QUEUE = "self._outboundStreamQueues"
-KEEP = {"_sendPrioritisedData", "writeDataToStream", "endRequest", "_handleWindowUpdate", "dataReceived", "_requestReceived"}
+KEEP = KEEP_CONN
 
 
 def _unblock_sites(ctx):
